@@ -490,6 +490,8 @@ def _parseNormalTextgrid(data: str) -> Dict:
 def _parseShortTextgrid(data: str) -> Dict:
     """Reads a short textgrid file"""
     data = data.replace("\r\n", "\n")
+    if not data.endswith("\n"):
+        data += "\n"  # Rows are read up to a line break, the last one too
 
     intervalIndicies = [(i, True) for i in utils.findAll(data, '"IntervalTier"')]
     pointIndicies = [(i, False) for i in utils.findAll(data, '"TextTier"')]
